@@ -492,12 +492,12 @@ func fullAlphabet() []rop {
 		rop{Kind: opReadNFrom, N: 0, Avail: -1},
 		rop{Kind: opReadNFrom, N: 1, Avail: -1},
 		rop{Kind: opReadNFrom, N: 3, Avail: -1},
-		rop{Kind: opReadNFrom, N: 3, Avail: -1, Chunk: 1},           // short reads
-		rop{Kind: opReadNFrom, N: 2, Avail: 2, With: true},          // EOF together with the last data
-		rop{Kind: opReadNFrom, N: 3, Avail: 1},                      // EOF on the following call
+		rop{Kind: opReadNFrom, N: 3, Avail: -1, Chunk: 1},              // short reads
+		rop{Kind: opReadNFrom, N: 2, Avail: 2, With: true},             // EOF together with the last data
+		rop{Kind: opReadNFrom, N: 3, Avail: 1},                         // EOF on the following call
 		rop{Kind: opReadNFrom, N: 2, Avail: 2, With: true, Fail: true}, // error together with the last data
-		rop{Kind: opReadNFrom, N: 3, Avail: 1, Fail: true},          // error on the following call
-		rop{Kind: opReadNFrom, N: 1, Avail: 0},                      // nothing but EOF
+		rop{Kind: opReadNFrom, N: 3, Avail: 1, Fail: true},             // error on the following call
+		rop{Kind: opReadNFrom, N: 1, Avail: 0},                         // nothing but EOF
 	)
 	a = append(a,
 		rop{Kind: opWriteTo, Budget: -1},
